@@ -4,6 +4,7 @@ import (
 	"fmt"
 	"go/token"
 	"go/types"
+	"os"
 	"sort"
 	"strings"
 
@@ -36,7 +37,65 @@ func mapFieldOf(v ssa.Value) string {
 	for i := 0; i < 6; i++ {
 		switch x := v.(type) {
 		case *ssa.Extract:
+			// result of a same-package lookup helper: the table its returned value was read from
+			if call, ok := x.Tuple.(*ssa.Call); ok {
+				if rs := helperResults(call, x.Index); len(rs) > 0 {
+					if os.Getenv("GALAXY_DEBUG") != "" {
+						for _, r := range rs {
+							fmt.Printf("MAPFIELD helper result %s %T -> %q\n", r, r, mapFieldOf(r))
+						}
+					}
+					name := ""
+					for _, r := range rs {
+						if isNilConst(r) {
+							continue
+						}
+						n := mapFieldOf(r)
+						if name != "" && n != name {
+							return ""
+						}
+						name = n
+					}
+					return name
+				}
+			}
 			v = x.Tuple
+		case *ssa.Call:
+			if rs := helperResults(x, 0); len(rs) > 0 {
+				name := ""
+				for _, r := range rs {
+					if isNilConst(r) {
+						continue
+					}
+					n := mapFieldOf(r)
+					if name != "" && n != name {
+						return ""
+					}
+					name = n
+				}
+				return name
+			}
+			return ""
+		case *ssa.UnOp:
+			// a result cell (results are spilled into cells when the function has a defer): what was stored into it
+			a, ok := x.X.(*ssa.Alloc)
+			if !ok || x.Op != token.MUL {
+				return ""
+			}
+			name, any := "", false
+			for _, ref := range *a.Referrers() {
+				if st, ok := ref.(*ssa.Store); ok && st.Addr == ssa.Value(a) {
+					if isNilConst(st.Val) {
+						continue
+					}
+					n := mapFieldOf(st.Val)
+					if any && n != name {
+						return ""
+					}
+					name, any = n, true
+				}
+			}
+			return name
 		case *ssa.Lookup:
 			_, n, ok := fieldLoad(x.X)
 			if ok {
@@ -307,8 +366,25 @@ func ruleMultiIPAllOrNothing(c *Ctx, rule string) {
 	}
 	// ErrNoEnoughIP returns: unreachable after any create
 	n := 0
-	for _, ret := range returns(fn) {
-		if ld, ok := retVal(ret, ei).(*ssa.UnOp); ok && ld.Op == token.MUL {
+	rets := returns(fn)
+	for _, h := range helperFns(fn, 2) {
+		// the pick phase may have been extracted: its ErrNoEnoughIP return counts (reachability from a create follows the call)
+		if hi := errResultIndex(h); hi >= 0 && hi == h.Signature.Results().Len()-1 {
+			for _, r := range returns(h) {
+				if ld, ok := retVal(r, hi).(*ssa.UnOp); ok && ld.Op == token.MUL {
+					if g, ok := ld.X.(*ssa.Global); ok && g.Name() == "ErrNoEnoughIP" {
+						rets = append(rets, r)
+					}
+				}
+			}
+		}
+	}
+	for _, ret := range rets {
+		rei := ei
+		if ret.Parent() != fn {
+			rei = errResultIndex(ret.Parent())
+		}
+		if ld, ok := retVal(ret, rei).(*ssa.UnOp); ok && ld.Op == token.MUL {
 			if g, ok := ld.X.(*ssa.Global); ok && g.Name() == "ErrNoEnoughIP" {
 				n++
 				reachable := false
@@ -333,7 +409,11 @@ func ruleCandidateGuards(c *Ctx, rule string) {
 		return
 	}
 	var cb *ssa.Function
-	for _, a := range fn.AnonFuncs {
+	anons := append([]*ssa.Function{}, fn.AnonFuncs...)
+	for _, h := range helperFns(fn, 2) {
+		anons = append(anons, h.AnonFuncs...) // the pick phase may live in an extracted helper
+	}
+	for _, a := range anons {
 		has := false
 		allInstrs(a, func(in ssa.Instruction) {
 			if lk, ok := in.(*ssa.Lookup); ok {
@@ -741,7 +821,23 @@ func ruleReloadDeletesOnlyForeign(c *Ctx, rule string) {
 			}
 		})
 		if len(inserts) == 0 {
-			c.undecided(rule, fn, "'found in a configured pool' decision", nil, "neither a boolean flag set together with the insertion into the rebuilt table, nor an insertion inside the search loop under a Contains guard")
+			// finder-helper form: pool := findPool(pools, ip); if pool == nil { queue for deletion; continue }; insert
+			if finderForm(c, rule, fn, appends) {
+				for _, d := range dels {
+					arg := callArgs(d)[0]
+					fromList := dependsOn(arg, func(v ssa.Value) bool {
+						call, ok := v.(*ssa.Call)
+						if !ok {
+							return false
+						}
+						b, ok := call.Call.Value.(*ssa.Builtin)
+						return ok && b.Name() == "append"
+					})
+					c.ob(rule, fn, "deleteFloatingIP receives names from the deletion list only", d, fromList, "argument flows from the appended slice")
+				}
+				return
+			}
+			c.undecided(rule, fn, "'found in a configured pool' decision", nil, "neither a boolean flag set together with the insertion into the rebuilt table, nor an insertion inside the search loop under a Contains guard, nor a finder helper whose nil result guards the deletion")
 			return
 		}
 		hin := loopHeaderOf(inserts[0])
@@ -939,7 +1035,7 @@ func ruleKeyMatchBeforeStoreWrite(c *Ctx, rule string) {
 		if fn == nil {
 			continue
 		}
-		keyEq := guardEdges(fn, predEq(func(v ssa.Value) bool {
+		keyEq := guardEdgesX(fn, predEq(func(v ssa.Value) bool {
 			b, n, ok := fieldLoad(v)
 			return ok && n == "Key" && mapFieldOf(b) == "allocatedFIPs"
 		}, func(v ssa.Value) bool {
@@ -1025,7 +1121,32 @@ func ruleReloadPoolMatch(c *Ctx, rule string) {
 				okP = true
 			}
 		}
-		c.ob(rule, fn, "rebuilt allocation uses the pool whose ranges contain the ip", nw, okP && guardedBy(fn, nw, rangeHas), "New(pool, ..) reachable only through pool.Contains(ip) (range membership) for that same pool")
+		rh := rangeHas
+		if call, isCall := pool.(*ssa.Call); isCall && !okP {
+			// finder-helper form: pool := findPool(..): every non-nil return of the helper is the receiver of a Contains test there
+			if h := helperOf(call, nil); h != nil {
+				hc := guardEdges(h, predCall("(*FloatingIPPool).Contains", nil))
+				okP = len(hc) > 0
+				for _, ret := range returns(h) {
+					rv := retVal(ret, 0)
+					if isNilConst(rv) {
+						continue
+					}
+					same := false
+					for _, e := range hc {
+						cc := e.from.Instrs[len(e.from.Instrs)-1].(*ssa.If).Cond.(*ssa.Call)
+						if cc.Call.Args[0] == rv || sameAccess(cc.Call.Args[0], rv) {
+							same = true
+						}
+					}
+					if !same {
+						okP = false
+					}
+				}
+				rh = append(append([]edge{}, rangeHas...), hc...)
+			}
+		}
+		c.ob(rule, fn, "rebuilt allocation uses the pool whose ranges contain the ip", nw, okP && guardedBy(fn, nw, rh), "New(pool, ..) reachable only through pool.Contains(ip) (range membership) for that same pool")
 	})
 	if n == 0 {
 		c.undecided(rule, fn, "rebuild of allocated entries", nil, "no New(.., ip.Spec.Key, ..) call found")
@@ -1185,7 +1306,7 @@ func ruleExactKeyQueries(c *Ctx, rule string) {
 		}
 		bad := 0
 		eq := 0
-		for _, f := range withAnon(fn) {
+		for _, f := range append(withAnon(fn), helperFns(fn, 2)...) {
 			allInstrs(f, func(in ssa.Instruction) {
 				switch x := in.(type) {
 				case *ssa.Call:
@@ -1212,7 +1333,7 @@ func ruleExactKeyQueries(c *Ctx, rule string) {
 		if isGenerated(fn) {
 			continue
 		}
-		for _, call := range calls(fn, "IPAM).ByPrefix") {
+		for _, call := range callsLocal(fn, "IPAM).ByPrefix") {
 			n++
 			a := callArgs(call)[0]
 			ok := isResultOf(a, 0, "(*KeyObj).PoolPrefix")
@@ -1264,4 +1385,79 @@ func naturalLoop(h *ssa.BasicBlock) map[*ssa.BasicBlock]bool {
 		}
 	}
 	return loop
+}
+
+// finderForm: the search over the configured pools was extracted into a helper that returns the matching pool or nil.
+// Decides: the helper returns nil only after its loop was exhausted and a pool only behind pool.Contains(ip); in fn the
+// deletion list is appended to only on the `result == nil` edge and the rebuilt table is updated only on the other one.
+func finderForm(c *Ctx, rule string, fn *ssa.Function, appends []*ssa.Store) bool {
+	var finder *ssa.Call
+	var h *ssa.Function
+	allInstrs(fn, func(in ssa.Instruction) {
+		if call, ok := in.(*ssa.Call); ok && finder == nil {
+			if g := helperOf(call, nil); g != nil && g.Signature.Results().Len() == 1 && typeNameOf(g.Signature.Results().At(0).Type()) == "FloatingIPPool" {
+				finder, h = call, g
+			}
+		}
+	})
+	if finder == nil {
+		return false
+	}
+	contains := guardEdges(h, predCall("(*FloatingIPPool).Contains", nil))
+	// helper: nil only on exhaustion, non-nil only behind Contains of that pool
+	okH := len(contains) > 0
+	for _, ret := range returns(h) {
+		rv := retVal(ret, 0)
+		if isNilConst(rv) {
+			hdr := (*ssa.BasicBlock)(nil)
+			for _, b := range h.Blocks {
+				for _, p := range b.Preds {
+					if b.Dominates(p) && (hdr == nil || hdr.Dominates(b)) {
+						hdr = b
+					}
+				}
+			}
+			if hdr == nil {
+				okH = false
+				continue
+			}
+			loop := naturalLoop(hdr)
+			ct := newCut()
+			for i, sct := range hdr.Succs {
+				if !loop[sct] {
+					ct.edge(edge{hdr, i})
+				}
+			}
+			if reachFromEntry(h, ct).has(ret) {
+				okH = false
+			}
+		} else {
+			same := false
+			for _, e := range contains {
+				if call, ok := e.from.Instrs[len(e.from.Instrs)-1].(*ssa.If).Cond.(*ssa.Call); ok && (call.Call.Args[0] == rv || sameAccess(call.Call.Args[0], rv)) {
+					same = true
+				}
+			}
+			if !same || !guardedBy(h, ret, contains) {
+				okH = false
+			}
+		}
+	}
+	c.ob(rule, h, "the pool finder answers nil only after every pool was tried, and a pool only if its ranges contain the ip", nil, okH, "nil return unreachable without the exhaustion edge of the search loop; non-nil returns behind that pool's Contains(ip)")
+	isNilEdge := guardEdges(fn, predEq(func(v ssa.Value) bool { return v == ssa.Value(finder) }, isNilConst))
+	var notNil []edge
+	for _, e := range isNilEdge {
+		notNil = append(notNil, edge{e.from, 1 - e.succ})
+	}
+	for _, a := range appends {
+		c.ob(rule, fn, "an object is classified 'in no configured pool' only after every pool was tried", a, guardedBy(fn, a, isNilEdge), "the append to the deletion list is reachable only through the `finder(..) == nil` edge")
+	}
+	nIns := 0
+	allInstrs(fn, func(in ssa.Instruction) {
+		if mu, ok := in.(*ssa.MapUpdate); ok && typeNameOf(mu.Value.Type()) == "FloatingIP" && loopHeaderOf(mu) != nil && loopHeaderOf(mu) == loopHeaderOf(finder) {
+			nIns++
+			c.ob(rule, fn, "object queued for deletion only if no configured pool contains it", mu, guardedBy(fn, mu, notNil), "the insertion into the rebuilt table is reachable only through the `finder(..) != nil` edge")
+		}
+	})
+	return nIns > 0
 }
